@@ -456,7 +456,61 @@ func runCheck(spec *propSpec, tier string) int {
 		infra = append(infra, fmt.Sprintf("shard %d exit=%d: %s", r.shard, r.exit, tail(r.output, 20)))
 	}
 
+	// 3. coverage-guided native fuzzing (thorough tier only; cannot be seeded, so it is never part of quick)
+	fuzzExecs, fuzzInteresting := int64(-1), int64(0)
+	if tier == "thorough" && spec.FuzzTime > 0 && len(violations) == 0 {
+		os.RemoveAll(filepath.Join(root, "props", "testdata", "fuzz"))
+		prefix := filepath.Join(work, "fuzz")
+		args := []string{"test", "-vet=off", "-run", "^$", "-fuzz", "^FuzzProp$", "-fuzztime", fmt.Sprintf("%ds", spec.FuzzTime), "./props"}
+		cmd := exec.Command("go", args...)
+		cmd.Dir = root
+		cmd.Env = append(env(), "VERIF_PROP="+spec.ID, "VERIF_TIER=thorough", "VERIF_OUT="+prefix, fmt.Sprintf("VERIF_SEED=%d", seed))
+		cmd.SysProcAttr = &syscall.SysProcAttr{Setpgid: true}
+		var buf bytes.Buffer
+		cmd.Stdout, cmd.Stderr = &buf, &buf
+		done := make(chan error, 1)
+		if err := cmd.Start(); err == nil {
+			go func() { done <- cmd.Wait() }()
+			var werr error
+			select {
+			case werr = <-done:
+			case <-time.After(time.Duration(spec.FuzzTime+420) * time.Second):
+				syscall.Kill(-cmd.Process.Pid, syscall.SIGKILL)
+				<-done
+				fmt.Println("NOTE native fuzzing hit its time budget (inconclusive)")
+			}
+			out := buf.String()
+			for _, line := range strings.Split(out, "\n") {
+				if i := strings.Index(line, "execs: "); i >= 0 {
+					var n, k, tot int64
+					if _, e := fmt.Sscanf(line[i:], "execs: %d", &n); e == nil && n > fuzzExecs {
+						fuzzExecs = n
+					}
+					if j := strings.Index(line, "new interesting: "); j >= 0 {
+						if _, e := fmt.Sscanf(line[j:], "new interesting: %d (total: %d)", &k, &tot); e == nil {
+							fuzzInteresting = tot
+						}
+					}
+				}
+			}
+			if _, err := os.Stat(prefix + ".replay"); err == nil {
+				dst := filepath.Join(replayDir, fmt.Sprintf("%s-%s-seed%d-fuzz.json", spec.ID, tier, seed))
+				copyFile(prefix+".replay", dst)
+				violations = append(violations, dst)
+				fmt.Printf("--- native fuzzing found a failing input (tail) ---\n%s\n", tail(out, 15))
+			} else if werr != nil && !strings.Contains(out, "context deadline exceeded") {
+				fmt.Printf("NOTE native fuzzing ended with %v (no failing case recorded)\n%s\n", werr, tail(out, 8))
+			}
+		}
+		os.RemoveAll(filepath.Join(root, "props", "testdata", "fuzz"))
+	}
+
 	m := mergeStats(work, ts.Shards)
+	if fuzzExecs >= 0 {
+		m.Counters["native_fuzz_execs"] = fuzzExecs
+		m.Counters["native_fuzz_interesting_inputs"] = fuzzInteresting
+		m.Notes = append(m.Notes, fmt.Sprintf("coverage-guided native fuzzing (go test -fuzz FuzzProp, %ds): %d executions, corpus of %d interesting inputs", spec.FuzzTime, fuzzExecs, fuzzInteresting))
+	}
 	requested := int64(perShard * ts.Shards)
 	if m.Evaluations < requested*9/10 && len(violations) == 0 {
 		m.StoppedEarly = true
